@@ -85,8 +85,8 @@ def run_dataset(ctx, prop, case, via='function', index=0, reference=None, kinds=
                 confirmed = {
                     'refusal:no-intervals': not ids,
                     'refusal:no-level-crossed': not comps,
-                    'main-body-single-interval': bool(comps) and any(
-                        len(m) == 1 for nl, m in comps if nl == comps[0][0]),
+                    'main-body-single-interval': oracle_curves.single_interval_body_possible(
+                        connection, kind, case.get('grid_step', 1.0)),
                 }.get(key, True)
                 if not confirmed:
                     key = 'raises-without-cause:' + key
